@@ -154,65 +154,75 @@ theorem leading_underscore_without_prefixOK :
 /-! ### members of one class are pairwise distinct -/
 
 /-- FULL STRENGTH (no hypothesis on the options beyond: no property is renamed by the user's `aliases`
-map): the fold of `parse_object_fields` yields pairwise distinct member names, none of them among the
-names excluded at the start. -/
+map): the loop of `parse_object_fields` — over ordinary AND boolean-schema (`true`/`false`) properties,
+in any order — yields pairwise distinct member names, none of them among the names excluded at the start. -/
 theorem fields_distinct (E : Env) (k : Kind) (cfg : Cfg) :
-    ∀ (names : List (List Char)) (excl : List (List Char)) (fs : List (List Char × Option (List Char))),
-      (∀ n ∈ names, cfg.aliases.lookup n = none) →
-      foldFields E k cfg names excl = .ok fs →
-      (fs.map (·.1)).Pairwise (· ≠ ·) ∧ ∀ f ∈ fs.map (·.1), f ∉ excl := by
-  intro names
-  induction names with
+    ∀ (props : List (List Char × Bool)) (excl : List (List Char)) (fs : List FieldOut)
+      (ex : List (List Char)),
+      (∀ p ∈ props, cfg.aliases.lookup p.1 = none) →
+      foldProps E k cfg props excl = .ok (fs, ex) →
+      (fs.map (·.1.1)).Pairwise (· ≠ ·) ∧ ∀ f ∈ fs.map (·.1.1), f ∉ excl := by
+  intro props
+  induction props with
   | nil =>
-    intro excl fs _ h
-    simp only [foldFields, Res.ok.injEq] at h
-    subst h; simp
-  | cons n ns ih =>
-    intro excl fs hal h
-    rw [foldFields] at h
-    have hn := hal n (List.mem_cons_self)
-    split at h
-    · rename_i f a hfa
-      simp only [getValidFieldNameAndAlias, hn] at hfa
-      cases hv : getValidName E k cfg n excl false false with
-      | ok v =>
-        rw [hv] at hfa
-        simp only [Res.map, Res.ok.injEq, Prod.mk.injEq] at hfa
-        obtain ⟨hfv, _⟩ := hfa
-        subst hfv
-        have hvn := result_not_excluded hv
-        cases hrest : foldFields E k cfg ns (v :: excl) with
-        | ok fs' =>
-          rw [hrest] at h
-          simp only [Res.map, Res.ok.injEq] at h
-          subst h
-          obtain ⟨hp, hex⟩ := ih (v :: excl) fs' (fun m hm => hal m (List.mem_cons_of_mem _ hm)) hrest
-          refine ⟨?_, ?_⟩
-          · simp only [List.map_cons, List.pairwise_cons]
-            refine ⟨fun g hg heq => ?_, hp⟩
-            exact hex g hg (by rw [← heq]; exact List.mem_cons_self)
-          · intro g hg
-            simp only [List.map_cons, List.mem_cons] at hg
-            rcases hg with hg | hg
-            · rw [hg]; exact hvn
-            · exact fun hin => hex g hg (List.mem_cons_of_mem _ hin)
-        | outOfFuel => rw [hrest] at h; simp [Res.map] at h
-        | error => rw [hrest] at h; simp [Res.map] at h
-      | outOfFuel => rw [hv] at hfa; simp [Res.map] at hfa
-      | error => rw [hv] at hfa; simp [Res.map] at hfa
-    · cases h
-    · cases h
+    intro excl fs ex _ h
+    simp only [foldProps, Res.ok.injEq, Prod.mk.injEq] at h
+    obtain ⟨h, _⟩ := h; subst h; simp
+  | cons p ps ih =>
+    obtain ⟨n, isBool⟩ := p
+    intro excl fs ex hal h
+    obtain ⟨fa, fs', hfa, hrest, rfl⟩ := foldProps_cons_ok h
+    have hvn := field_name_not_excluded (hal (n, isBool) List.mem_cons_self) hfa
+    obtain ⟨hp, hex⟩ := ih (fa.1 :: excl) fs' ex (fun m hm => hal m (List.mem_cons_of_mem _ hm)) hrest
+    refine ⟨?_, ?_⟩
+    · simp only [List.map_cons, List.pairwise_cons]
+      refine ⟨fun g hg heq => ?_, hp⟩
+      exact hex g hg (by rw [← heq]; exact List.mem_cons_self)
+    · intro g hg
+      simp only [List.map_cons, List.mem_cons] at hg
+      rcases hg with hg | hg
+      · rw [hg]; exact hvn
+      · exact fun hin => hex g hg (List.mem_cons_of_mem _ hin)
 
-/-- non-vacuity: three properties that sanitise to the same name (`a-`, `a_`, `a+`) -/
-example : foldFields pyEnv .pydantic {} [['a', '-'], ['a', '_'], ['a', '+']] [] =
-    .ok [(['a', '_'], some ['a', '-']), (['a', '_', '_', '1'], some ['a', '_']),
-         (['a', '_', '_', '2'], some ['a', '+'])] := by decide +kernel
+/-- The invariant behind it, stated for the boolean-schema branch too: every emitted member name — of an
+ordinary property or of a `true`/`false` one — is in `exclude_field_names` from the moment it is given
+(so it is in the final set), the initial excludes are kept, and there is exactly one member per
+property, typed `Any` exactly for the boolean-schema ones. -/
+theorem excludes_invariant (E : Env) (k : Kind) (cfg : Cfg) :
+    ∀ (props : List (List Char × Bool)) (excl : List (List Char)) (fs : List FieldOut)
+      (ex : List (List Char)),
+      foldProps E k cfg props excl = .ok (fs, ex) →
+      (∀ f ∈ fs, f.1.1 ∈ ex) ∧ (∀ e ∈ excl, e ∈ ex) ∧ fs.map (·.2) = props.map (·.2) := by
+  intro props
+  induction props with
+  | nil =>
+    intro excl fs ex h
+    simp only [foldProps, Res.ok.injEq, Prod.mk.injEq] at h
+    obtain ⟨h1, h2⟩ := h; subst h1; subst h2; simp
+  | cons p ps ih =>
+    obtain ⟨n, isBool⟩ := p
+    intro excl fs ex h
+    obtain ⟨fa, fs', _, hrest, rfl⟩ := foldProps_cons_ok h
+    obtain ⟨h1, h2, h3⟩ := ih (fa.1 :: excl) fs' ex hrest
+    refine ⟨?_, fun e he => h2 e (List.mem_cons_of_mem _ he), by simp [h3]⟩
+    intro f hf
+    simp only [List.mem_cons] at hf
+    rcases hf with hf | hf
+    · subst hf; exact h2 _ List.mem_cons_self
+    · exact h1 f hf
+
+/-- non-vacuity: three properties that sanitise to the same name (`a-`, `a_`, `a+`), the first one with
+the boolean schema `true`: its name is reserved, the later ones get suffixes -/
+example : foldProps pyEnv .pydantic {} [(['a', '-'], true), (['a', '_'], false), (['a', '+'], false)] [] =
+    .ok ([((['a', '_'], some ['a', '-']), true), ((['a', '_', '_', '1'], some ['a', '_']), false),
+          ((['a', '_', '_', '2'], some ['a', '+']), false)],
+         [['a', '_', '_', '2'], ['a', '_', '_', '1'], ['a', '_']]) := by decide +kernel
 
 /-- the hypothesis on `aliases` cannot be dropped: the user's map is applied without looking at the
 excludes (two properties may be given the same name) -/
 theorem fields_distinct_needs_alias_hypothesis :
-    foldFields pyEnv .pydantic { aliases := [(['a'], ['b'])] } [['b'], ['a']] []
-      = .ok [(['b'], none), (['b'], some ['a'])] := by decide +kernel
+    foldProps pyEnv .pydantic { aliases := [(['a'], ['b'])] } [(['b'], false), (['a'], false)] []
+      = .ok ([((['b'], none), false), ((['b'], some ['a']), false)], [['b'], ['b']]) := by decide +kernel
 
 /-! ### wire names -/
 
@@ -270,28 +280,23 @@ theorem wire_key_preserved (E : Env) (k : Kind) (cfg : Cfg) (n : List Char) (exc
     | outOfFuel => rw [hv] at h; simp [Res.map] at h
     | error => rw [hv] at h; simp [Res.map] at h
 
-/-- …and for the whole class: the list of wire keys is the list of property names -/
+/-- …and for the whole class, boolean-schema properties included: the list of wire keys is the list of
+property names -/
 theorem wire_keys_of_class (E : Env) (k : Kind) (cfg : Cfg) (hna : cfg.noAlias = false) :
-    ∀ (names excl : List (List Char)) (fs : List (List Char × Option (List Char))),
-      foldFields E k cfg names excl = .ok fs → fs.map wireKey = names := by
-  intro names
-  induction names with
-  | nil => intro excl fs h; simp only [foldFields, Res.ok.injEq] at h; subst h; rfl
-  | cons n ns ih =>
-    intro excl fs h
-    rw [foldFields] at h
-    split at h
-    · rename_i f a hfa
-      cases hrest : foldFields E k cfg ns (f :: excl) with
-      | ok fs' =>
-        rw [hrest] at h
-        simp only [Res.map, Res.ok.injEq] at h
-        subst h
-        simp only [List.map_cons, ih _ _ hrest, wire_key_preserved E k cfg n excl (f, a) hna hfa]
-      | outOfFuel => rw [hrest] at h; simp [Res.map] at h
-      | error => rw [hrest] at h; simp [Res.map] at h
-    · cases h
-    · cases h
+    ∀ (props : List (List Char × Bool)) (excl : List (List Char)) (fs : List FieldOut)
+      (ex : List (List Char)),
+      foldProps E k cfg props excl = .ok (fs, ex) → fs.map (fun f => wireKey f.1) = props.map (·.1) := by
+  intro props
+  induction props with
+  | nil =>
+    intro excl fs ex h
+    simp only [foldProps, Res.ok.injEq, Prod.mk.injEq] at h
+    obtain ⟨h, _⟩ := h; subst h; rfl
+  | cons p ps ih =>
+    obtain ⟨n, isBool⟩ := p
+    intro excl fs ex h
+    obtain ⟨fa, fs', hfa, hrest, rfl⟩ := foldProps_cons_ok h
+    simp only [List.map_cons, ih _ _ _ hrest, wire_key_preserved E k cfg n excl fa hna hfa]
 
 /-- The key that reaches the running model is the alias or, without alias, what the Python compiler
 makes of the identifier (`nfkc`, a parameter). PARTIAL: it is the property name whenever the
